@@ -19,16 +19,19 @@ META = dict(
               "(spec/BrokerConn.tla) model-checked by TLC (safety + liveness); TLC-generated behaviours replayed by a "
               "conductor on a real *Broker against a raw TCP frame server; TLC evaluates the property's clauses on "
               "the recorded client/server events (spec/BrokerConnTrace.tla)",
-    text="TLC explores every interleaving of up to 4 concurrent callers (thorough: 3 callers x 2 calls), "
-         "Net.MaxOpenRequests in {1,2,3}, one faulty server answer (wrong correlation id, wrong id with a nested "
-         "frame, out-of-order answer, truncated frame, oversized length, abrupt close), the read timeout firing at any "
-         "time and Close racing, and checks OwnResponseOrError, MismatchNeverDelivered, AfterFaultAllFail, the in-flight "
+    text="TLC explores every interleaving of up to 4 concurrent callers with Net.MaxOpenRequests in {1,2} (thorough: 3 callers "
+         "x 2 calls, {1,2,3}), one faulty server answer (wrong correlation id, wrong id with a nested frame, out-of-order "
+         "answer, body stalled after an intact header with the peer answering on later, runt length <= 4, oversized length, "
+         "abrupt close, well-framed but undecodable body), the read timeout firing at any time and Close racing, and checks "
+         "OwnResponseOrError, MismatchNeverDelivered, AfterFaultAllFail, the in-flight "
          "bound the code really guarantees (Max+1; the property's bound Max is shown to fail on the model) and that every "
          "started call and Close return. Every conductor-reproducible behaviour of 3 callers x Max in {1,2} with one fault, "
          "of 2 callers with a fault and a read timeout (thorough: also 4 callers x Max in {1,2,3}), impatient re-runs of the "
          "late-answer behaviours, and seeded random behaviours of 6 callers x 2 calls x Max in {1,2,5} are replayed on the "
          "real Broker over loopback TCP; "
-         "each MetadataRequest carries a unique topic name that the server echoes, so responses are attributable; the "
+         "each request (MetadataRequest, or ListPartitionReassignmentsRequest for the flexible v1 response header) carries a "
+         "unique topic name that the server echoes, so responses are attributable; runt / short frames use every length "
+         "in {0,1,3,4,5,7,8} with both header versions; panics recovered by PanicHandler are attributed to their connection; the "
          "in-flight count is computed by the trace spec from server-side events only.",
     note="bounded model; real executions cover the schedules the conductor can force from outside (start of calls, "
          "Close, server answers, silence) - interleavings inside Broker.send are exercised by real goroutine races "
@@ -108,28 +111,6 @@ def gen_cases(ctx, out):
             k += 1
         stats.append({"cfg": cfg, "behaviours_emitted": emitted, "distinct_cases": k,
                       "states": r.distinct, "generated": r.generated, "exhaustive": sim is None})
-    # wire-level dimensions the model abstracts from: the response header version (0: MetadataRequest,
-    # 1: flexible header, ListPartitionReassignmentsRequest with Version 2.4) and the length field of
-    # runt (0,1,3,4) / shortbody (5,7,8) frames. Behaviours of the 2-caller configuration are run with
-    # every combination, the others rotate through them.
-    RUNT = [(ln, hv) for ln in (4, 0, 1, 3) for hv in (1, 0)]
-    SHORT = [(ln, hv) for ln in (5, 7, 8) for hv in (0, 1)]
-    expanded = []
-    rot = {"runt": 0, "shortbody": 0, "": 0}
-    for c in cases:
-        kinds = {x["kind"] for x in c["steps"] if x["a"] == "srv"}
-        k = "runt" if "runt" in kinds else "shortbody" if "shortbody" in kinds else ""
-        combos = RUNT if k == "runt" else SHORT if k == "shortbody" else [(0, 0), (0, 1)]
-        if c["src"] == "gen2" and k:
-            for ln, hv in combos:
-                expanded.append(dict(c, len=ln, hv=hv))
-        else:
-            ln, hv = combos[rot[k] % len(combos)]
-            rot[k] += 1
-            expanded.append(dict(c, len=ln, hv=hv))
-    cases = expanded
-    for i, c in enumerate(cases):
-        c["id"] = i + 1
     # impatient re-runs: a behaviour in which the server still sends something after the read timeout is
     # replayed a second time with the conductor waiting only for the FIRST of the returns the model expects
     # before it goes on (also a behaviour of the unrestricted model: the peer may act at any time) - a
@@ -150,6 +131,28 @@ def gen_cases(ctx, out):
         cases.append(d)
     stats.append({"cfg": "impatient re-runs of late-answer behaviours", "behaviours_emitted": len(extra),
                   "distinct_cases": len(extra), "states": 0, "generated": 0, "exhaustive": False})
+    # wire-level dimensions the model abstracts from: the response header version (0: MetadataRequest,
+    # 1: flexible header, ListPartitionReassignmentsRequest with Version 2.4) and the length field of
+    # runt (0,1,3,4) / shortbody (5,7,8) frames. Behaviours of the 2-caller configuration are run with
+    # every combination, the others rotate through them.
+    RUNT = [(ln, hv) for ln in (4, 0, 1, 3) for hv in (1, 0)]
+    SHORT = [(ln, hv) for ln in (5, 7, 8) for hv in (0, 1)]
+    expanded = []
+    rot = {"runt": 0, "shortbody": 0, "": 0}
+    for c in cases:
+        kinds = {x["kind"] for x in c["steps"] if x["a"] == "srv"}
+        k = "runt" if "runt" in kinds else "shortbody" if "shortbody" in kinds else ""
+        combos = RUNT if k == "runt" else SHORT if k == "shortbody" else [(0, 0), (0, 1)]
+        if c["src"] == "gen2" and k == "runt" and not c.get("impatient"):
+            for ln, hv in combos:
+                expanded.append(dict(c, len=ln, hv=hv))
+        else:
+            ln, hv = combos[rot[k] % len(combos)]
+            rot[k] += 1
+            expanded.append(dict(c, len=ln, hv=hv))
+    cases = expanded
+    for i, c in enumerate(cases):
+        c["id"] = i + 1
     if not cases:
         raise vlib.Inconclusive("no behaviours generated")
     with open(out, "w") as f:
